@@ -10,6 +10,8 @@
 //! no reader killed by a panic. `AsyncClient::forward_message*` (caller-chosen request ids, its own
 //! registration/cleanup path) is driven as a call kind of its own through the same ways of ending
 //! without a response; there a retry under the same id must be accepted and get its own response.
+//! c06_batch.rs adds the batch form of the forced timeout-vs-response windows (`batch_json_with_timeout` with more
+//! requests than the blocking client's worker pool; one request's response forced into each window; positional tokens).
 //! c06_stalled.rs adds the class "fault while ANOTHER task holds the writer in a large send stalled on
 //! backpressure, the peer then lingers": what must fail promptly has to have ended before the peer releases.
 
@@ -31,6 +33,9 @@ mod gates;
 #[cfg(feature = "net")]
 #[path = "c06_stalled.rs"]
 mod stalled;
+#[cfg(feature = "net")]
+#[path = "c06_batch.rs"]
+mod batch;
 
 #[cfg(feature = "net")]
 pub fn run(args: &Args) -> Report {
@@ -39,6 +44,7 @@ pub fn run(args: &Args) -> Report {
 
 #[cfg(feature = "net")]
 pub(crate) mod imp {
+    use super::batch;
     use super::gates;
     use super::infra::*;
     use super::stalled;
@@ -608,7 +614,9 @@ pub(crate) mod imp {
              {1,47,48,mid-query,mid-body,last-1}, 11 malformed-header kinds incl. wrapping sums and >=2^62 lengths with the \
              connection held open, WebSocket text/close/truncated/trailing/empty frames) x (0..16 calls in flight) x (timeout mode); \
              plus gate-forced timeout-vs-response orders, task abort at every probe point, and faults landing while a caller \
-             holds the writer lock; plus FORWARDED frames with caller-chosen ids (AsyncClient::forward_message[_with_timeout]) as a \
+             holds the writer lock; plus the batch form of the timeout-vs-response windows (batch_json_with_timeout larger than the \
+             blocking client's worker pool, one request's response parked into timeout.before_remove / reader.before_deliver / sent \
+             after the return, then the rest of the batch, a second batch and a call on the same client, positional tokens); plus FORWARDED frames with caller-chosen ids (AsyncClient::forward_message[_with_timeout]) as a \
              call kind of their own: in flight at every fault of the table, timed out in the forced reader-vs-timeout orders, \
              task-aborted / future-dropped at every probe point, each followed by a retry under the SAME id; plus every fault that \
              leaves the socket open (and peer close/RST) delivered while ANOTHER task holds the writer in a large send stalled on \
@@ -673,6 +681,10 @@ pub(crate) mod imp {
         }
         if matches!(stage, "main" | "races") && !env.stop() {
             gates::run_races(&mut env, &mut rep, &mut st, &mut rng, args);
+        }
+        // the batch form of the forced timeout-vs-response windows (own random stream)
+        if matches!(stage, "main" | "races" | "batch") && !env.stop() {
+            batch::run_batch_windows(&mut env, &mut rep, &mut st, args);
         }
         if matches!(stage, "main" | "cancel") && !env.stop() {
             gates::run_cancels(&mut env, &mut rep, &mut st, &mut rng, args);
